@@ -10,7 +10,10 @@
      - the meaning of join / projection / slice / find_arg_optimal            (full)
      - dpop_util_sem_partial : the UTIL a node sends is one exact dynamic-programming step over
        the table it accumulated (children's UTILs + its variable costs) and the constraints it owns
-       (the unfolding of this recurrence into "optimum over the whole subtree" is not proved)
+     - dpop_util_sem / dpop_choice_opt : the induction steps in flat form, for any node of any tree:
+       UTIL = optimum over ALL assignments of the subtree; locally optimal choices below x make
+       the global assignment an optimal completion below x.  (The induction over the tree and the
+       protocol invariant that feeds these steps from actual runs are not proved.)
      - dpop_value_opt, dpop_root_opt, dpop_value_forward : VALUE phase choices  (full, handler level)
      - dpop_all_schedules_partial : for EVERY dcop, pseudo-tree input and schedule: finished and
        value selection happen at most once per node, nothing is emitted after finished, every
